@@ -1021,6 +1021,18 @@ def literal_value(node: ast.AST) -> bool:
         raise ValueError(f"Cannot find a deterministic value: {error!r}") from error
 
 
+def _reveals_set_order(function_name: str, args: Sequence[Any]) -> bool:
+    """Whether a call can tell in which order a set among its arguments is iterated.
+
+    That order depends on the hash seed of the process, so list({"a", "b"}), "".join({..}) and
+    str({..}) have another value when the program runs than they have here.
+    """
+    order_blind = {"len", "sorted", "min", "max", "any", "all", "set", "frozenset", "bool"}
+    return function_name not in order_blind and any(
+        isinstance(arg, (set, frozenset)) for arg in args
+    )
+
+
 def _literal_value(node: ast.AST) -> bool:
     if has_side_effect(node, safe_callable_whitelist=constants.PURE_BUILTIN_FUNCTIONS):
         raise ValueError("Cannot find a deterministic value for a node with a side effect")
@@ -1069,11 +1081,15 @@ def _literal_value(node: ast.AST) -> bool:
     if match_template(node, ast.Call(func=ast.Attribute(value=ast.Constant), keywords=[])):
         node_value = literal_value(node.func.value)
         args = [literal_value(arg) for arg in node.args]
+        if _reveals_set_order(node.func.attr, args):
+            raise ValueError("The order of a set is not the same in every process")
         return getattr(node_value, node.func.attr)(*args)
 
     if isinstance(node, ast.Call) and not node.keywords:  # e.g. int("10", base=2) is not int("10")
         if isinstance(node.func, ast.Name) and node.func.id in constants.PURE_BUILTIN_FUNCTIONS:
             args = [literal_value(arg) for arg in node.args]
+            if _reveals_set_order(node.func.id, args):
+                raise ValueError("The order of a set is not the same in every process")
             return getattr(builtins, node.func.id)(*args)
 
     return ast.literal_eval(node)
